@@ -6,7 +6,7 @@ C17 also runs C10-R3 (formats request every token attribute they read).
 import ast
 
 from ..report import rule
-from .. import norm, cfg as cfgmod, guards
+from .. import pm, norm, cfg as cfgmod, guards
 from ..model import AnalysisError
 from ..typestate import TypeState
 from .common import calls_of, find_calls, returns_of, is_abstract_body, bind_args
@@ -57,10 +57,15 @@ def c17_r1(ctx):
             raise AnalysisError("reviewed mode site %s no longer passes a literal mode; re-confirm the table" % site)
     # the analyzer is the field's own
     ad = prog.method("writing.SegmentWriter", "add_document", inherited=False)
-    an = [norm.canon(st.value) for st in ast.walk(ad.node) if isinstance(st, ast.Assign) and norm.canon(st.targets[0]) == "analyzer"]
-    ctx.ob(ad, an == ["field.analyzer"], "vectors are analysed with the field's own analyzer", detail=str(an))
+    AA = pm.Alpha(ad)
+    wv = [c for c in norm.calls_in(ad.node) if norm.call_name(c) == "word_values" and len(c.args) >= 2]
+    an = [norm.deep_canon(c.args[1], ad.node) for c in wv]
+    ctx.ob(ad, len(wv) == 1 and AA.eq(norm.inline_defs(wv[0].args[1], ad.node), "self.schema[fieldname].analyzer") and
+           AA.eq(norm.inline_defs(norm.receiver(wv[0]), ad.node), "self.schema[fieldname].vector"),
+           "vectors are analysed with the field's own analyzer", detail=str(an))
     fi = prog.method("fields.FieldType", "index", inherited=False)
-    an = [norm.canon(st.value) for st in ast.walk(fi.node) if isinstance(st, ast.Assign) and norm.canon(st.targets[0]) == "ana"]
+    wv = [c for c in norm.calls_in(fi.node) if norm.deep_canon(c.func, fi.node) == "self.format.word_values" and len(c.args) >= 2]
+    an = [norm.deep_canon(c.args[1], fi.node) for c in wv]
     ctx.ob(fi, an == ["self.analyzer"], "FieldType.index analyses with self.analyzer", detail=str(an))
     tk = prog.method("fields.FieldType", "tokenize", inherited=False)
     rets = [norm.canon(r.value) for r in returns_of(tk) if r.value is not None]
@@ -167,13 +172,23 @@ def c17_r4(ctx):
     if len(qif) != 1:
         return
     qb = qif[0]
-    sizes = [st for s_ in qb.body for st in ast.walk(s_) if isinstance(st, ast.Assign) and norm.canon(st.targets[0]) == "size"]
+    # the gram size of the query branch: the one local assigned at the top of the branch
+    sizes = [st for st in qb.body if isinstance(st, ast.Assign) and isinstance(st.targets[0], ast.Name)]
     txt = [norm.canon(norm.inline_defs(s_.value, f.node)) for s_ in sizes]
     ctx.ob(f, len(txt) == 1 and _is_clamped_size(txt[0].replace("len(value)", "inlen")),
            "query-mode gram size is self.max clamped to the text length",
            detail="size = %s" % txt)
     # index branch: sizes self.min .. self.max
-    rng = [norm.canon(n.iter) for s_ in qb.orelse for n in ast.walk(s_) if isinstance(n, ast.For) and norm.canon(n.target) == "size"]
+    rest = qb.orelse
+    if not rest:
+        # `if mode == "query": ...; return` followed by the index branch
+        for blk in ast.walk(f.node):
+            b_ = getattr(blk, "body", None)
+            if isinstance(b_, list) and qb in b_:
+                rest = b_[b_.index(qb) + 1:]
+    # the inner loop (nested in the loop over start offsets) enumerates the sizes
+    rng = [norm.canon(n.iter) for s_ in rest for outer in ast.walk(s_) if isinstance(outer, ast.For)
+           for n in outer.body if isinstance(n, ast.For)]
     ctx.ob(f, rng in (["xrange(self.min, (1 + self.max))"], ["range(self.min, (1 + self.max))"]),
            "index-mode emits every size from self.min to self.max", detail=str(rng))
     nf = prog.method("analysis.ngrams.NgramFilter", "__call__", inherited=False)
